@@ -1,4 +1,5 @@
 From Coq Require Import Extraction ExtrOcamlBasic.
-From CAres.Wire Require Import Cursor Name Record Parse.
+From CAres.Wire Require Import Cursor Name Record Parse Escape RefDecode.
 Extraction Language OCaml.
-Extraction "../ocaml/gen/WireModel.ml" dns_parse expand_name expand_string.
+Extraction "../ocaml/gen/WireModel.ml" dns_parse expand_name expand_string
+  ref_decode ref_strict norm_ref unescape escape_name.
